@@ -23,6 +23,7 @@ RULE = ('cases = random G-SN networks (C03 grammar, blocks invoked once or twice
         'log-uniform in [0.05,20] x random coefficients (any values) / coefficients with a winner '
         'margin.  Non-trivial: a block with >= 2 branches of different cost and non-uniform '
         'coefficients; distinct = hash of (network, coefficients, mode, metric, full_cost).')
+RULE += ('  Round 3: a quarter of the cases wrap a seed network that had already been wrapped (and costed) with an input of another resolution.')
 ASSUMPTIONS = [
     'theta is read from the combiner after the forward pass (the currently sampled coefficients)',
     'float32 cost values are compared with relative slack 1e-5',
